@@ -15,6 +15,7 @@ usage:
       before forking.  A case is
         {id, cls: "module:Class", dim, solids, clean, opts: {name: value},
          ctor_opts: {name: value} (default: opts), route: "same" | "flip",
+         layout: "single" | "multi" | "multi0",
          integrator: null | "module:Class", chooser: bool,
          mode: "gen" | "run"}
       The scheme is CONSTRUCTED with ctor_opts (for the options that are
@@ -38,8 +39,18 @@ usage:
 A trace (see spec/TraceSchemes.tla):
   id, scheme, dim, solids, clean, chooser, integrator, opts [{k, v}],
   route, ctor [{k, v}]              construction-time values of the options
+  layout                            single: fluids=[fluid], solids=[solid]|[];
+                                    multi: fluids=[fluid, fluid2, fluid3],
+                                    solids=[solid, solid2] with DIFFERENT
+                                    particle counts (fluid3: 1 particle;
+                                    multi0: fluid3 has no particle)
   setup  {ok, stage, msg}           which set-up call raised, if any
-  arrays [{name, props[]}]          properties + constants after set-up
+  arrays [{name, props[], n, lens [{size, props[]}], idx[]}]
+                                    properties + constants after set-up; n =
+                                    number of particles, lens = the
+                                    properties grouped by (carray length /
+                                    stride), idx = the values of orig_idx
+                                    (when the scheme added it)
   eqs    [{cls, dest, sources[], d[], s[], syms[], stage, gd[], gs[]}]
          d/s: explicit d_*/s_* argument names of initialize,
          initialize_pair, loop, loop_all, post_loop; syms: the other
@@ -209,7 +220,13 @@ def has_own(cls, name):
     return getattr(cls, name, None) is not getattr(Scheme, name)
 
 
-def construct(path, dim, solids, opts):
+FLUIDS = {'single': ['fluid'], 'multi': ['fluid', 'fluid2', 'fluid3'],
+          'multi0': ['fluid', 'fluid2', 'fluid3']}
+SOLIDS = {'single': ['solid'], 'multi': ['solid', 'solid2'],
+          'multi0': ['solid', 'solid2']}
+
+
+def construct(path, dim, solids, opts, layout='single'):
     """Instance with the table's constructor arguments; every option of
     `opts` that is a constructor parameter is given there as well (the
     final assignment is applied afterwards through configure, the
@@ -218,10 +235,10 @@ def construct(path, dim, solids, opts):
     ent = TABLE[path]
     params = inspect.signature(cls.__init__).parameters
     kw = dict(ent['ctor'])
-    kw['fluids'] = ['fluid']
+    kw['fluids'] = list(FLUIDS[layout])
     kw['dim'] = dim
     if 'solids' in params:
-        kw['solids'] = ['solid'] if solids else []
+        kw['solids'] = list(SOLIDS[layout]) if solids else []
     for k, v in opts.items():
         if k in params:
             kw[k] = v
@@ -325,9 +342,12 @@ def lattice(dim, n, origin):
     return out
 
 
-def make_arrays(dim, names):
+def make_arrays(dim, names, layout='single'):
     """Plain particle arrays: a block of fluid, two layers of `solid` below
-    it and two layers of `wall` above it (along the last axis)."""
+    it and two layers of `wall` above it (along the last axis).  The extra
+    arrays of the multi layouts have other particle counts: fluid2 a row of
+    5 beside the block, fluid3 one particle (none in multi0), solid2 a row
+    of 3 below the solid."""
     from pysph.base.utils import get_particle_array
     nf = 6 if dim == 1 else 4
     m = RHO0 * DX ** dim
@@ -341,10 +361,47 @@ def make_arrays(dim, names):
         elif name == 'wall':
             n[-1] = 2
             org[-1] = nf * DX
+        elif name == 'fluid2':
+            n = [1] * dim
+            n[0] = 5
+            org[0] = (nf + 3) * DX
+        elif name == 'fluid3':
+            n = [1] * dim
+            n[0] = 0 if layout == 'multi0' else 1
+            org[0] = -(2 + (dim == 1) * 4) * DX
+        elif name == 'solid2':
+            n = [1] * dim
+            n[0] = 3
+            org[-1] = -3 * DX
+            if dim == 1:
+                org[0] = -5 * DX
         x, y, z = lattice(dim, n, org)
-        pas.append(get_particle_array(name=name, x=x, y=y, z=z, h=H0, m=m,
-                                      rho=RHO0))
+        k = len(x)
+        pas.append(get_particle_array(
+            name=name, x=x, y=y, z=z, h=H0 * np.ones(k), m=m * np.ones(k),
+            rho=RHO0 * np.ones(k)))
     return pas
+
+
+def array_abstraction(pa):
+    """name, property + constant names, particle count, the properties
+    grouped by (carray length / stride), the values of orig_idx."""
+    n = pa.get_number_of_particles()
+    groups = {}
+    for name, arr in pa.properties.items():
+        stride = pa.stride.get(name, 1)
+        ln = arr.length
+        size = ln // stride if ln % stride == 0 else -1
+        groups.setdefault(size, []).append(name)
+    idx = []
+    if 'orig_idx' in pa.properties:
+        idx = [int(v) for v in pa.get('orig_idx', only_real_particles=False)]
+    return dict(name=pa.name,
+                props=sorted(set(pa.properties) | set(pa.constants)),
+                n=int(n),
+                lens=[dict(size=int(k), props=sorted(v))
+                      for k, v in sorted(groups.items())],
+                idx=idx)
 
 
 def flatten(eqs):
@@ -461,7 +518,9 @@ def run_case(case):
     ent = TABLE[path]
     opts = dict(case['opts'])
     copts = dict(case.get('ctor_opts') or opts)
-    names = ['fluid'] + (['solid'] if case['solids'] else [])
+    layout = case.get('layout', 'single')
+    names = list(FLUIDS[layout]) + (list(SOLIDS[layout]) if case['solids']
+                                    else [])
     for k, v in opts.items():
         if k in ent.get('lists', {}) and v:
             names += list(v)
@@ -470,7 +529,7 @@ def run_case(case):
               chooser=bool(case.get('chooser')),
               integrator=(case.get('integrator') or 'default').split(':')[-1],
               opts=[dict(k=k, v=sval(opts[k])) for k in sorted(opts)],
-              route=case.get('route', 'same'),
+              route=case.get('route', 'same'), layout=layout,
               ctor=[dict(k=k, v=sval(copts[k])) for k in sorted(copts)],
               setup=dict(ok=True, stage='', msg=''),
               arrays=[], eqs=[], steppers=[], symtab=symtab(),
@@ -480,13 +539,13 @@ def run_case(case):
     rejected = []
     t0 = time.time()
     try:
-        pas = make_arrays(case['dim'], names)
+        pas = make_arrays(case['dim'], names, layout)
         sch = step('construct', construct, path, case['dim'],
-                   case['solids'], copts)
+                   case['solids'], copts, layout)
         if case.get('chooser'):
             from pysph.sph.scheme import SchemeChooser
             other = step('construct', construct, path, case['dim'],
-                         case['solids'], {})
+                         case['solids'], {}, layout)
             sch = step('construct', SchemeChooser, default='main', main=sch,
                        other=other)
         step('configure', sch.configure, **opts)
@@ -501,9 +560,7 @@ def run_case(case):
         if solver is None:
             raise Stage('get_solver', RuntimeError('no solver'))
         flat = step('extract', flatten, eqs)
-        tr['arrays'] = [dict(name=pa.name,
-                             props=sorted(set(pa.properties) |
-                                          set(pa.constants)))
+        tr['arrays'] = [step('extract', array_abstraction, pa)
                         for pa in pas]
         tr['eqs'] = [step('extract', eq_abstraction, eq, si)
                      for si, eq in flat]
@@ -617,6 +674,7 @@ def failed_trace(case, kind, msg):
         integrator=(case.get('integrator') or 'default').split(':')[-1],
         opts=[dict(k=k, v=sval(opts[k])) for k in sorted(opts)],
         route=case.get('route', 'same'),
+        layout=case.get('layout', 'single'),
         ctor=[dict(k=k, v=sval(copts[k])) for k in sorted(copts)],
         setup=dict(ok=False, stage=kind, msg=msg), arrays=[], eqs=[],
         steppers=[], symtab=symtab(), ms_setup=0, ms_gen=0,
